@@ -88,7 +88,7 @@ func applyLayoutToProgram(prog *ast.Program) *fail.Error {
 
 	layoutName := prog.UseStmt.Name.Value
 	stmt := prog.UseStmt
-	layoutAbsPath, err := getFullPath(layoutName, true)
+	layoutAbsPath, err := getTemplatePath(layoutName)
 	if err != nil {
 		return fail.FromError(err, stmt.Line(), layoutAbsPath, "template")
 	}
@@ -117,7 +117,7 @@ func applyLayoutToProgram(prog *ast.Program) *fail.Error {
 func applyComponentToProgram(prog *ast.Program, progFilePath string) *fail.Error {
 	for _, comp := range prog.Components {
 		compName := comp.Name.Value
-		compAbsPath, err := getFullPath(compName, true)
+		compAbsPath, err := getTemplatePath(compName)
 		if err != nil {
 			return fail.FromError(err, 0, "", "template")
 		}
